@@ -2,6 +2,7 @@ import Svgbob.Model.Front
 import Svgbob.Model.Doc
 import Svgbob.Model.Pipeline
 import Svgbob.Model.Shell
+import Svgbob.Spec.Xml
 /-!
 Line-protocol driver for the executable model. `svgbob_model <mode>` reads one case per line
 on stdin and answers one line per case in the same canonical format as the Rust harness.
@@ -291,6 +292,7 @@ def handle (mode : String) (fields : List String) : String :=
     let r := escapeLine (parseEnv env) y.toInt! (unhex raw)
     "esc=" ++ joinWith ";" (r.1.map fun (c, s) => s!"{c.x},{c.y},{hexOfChars s}") ++
     " un=" ++ hexOfChars r.2
+  | "xmlwf", [inp] => b01 (Xml.wellFormed (unhex inp))
   | "legend", [inp] =>
     match parseCssLegend (unhex inp) with
     | none => "err"
